@@ -187,7 +187,7 @@ func generalise(d string) string {
 		}
 	}
 	if strings.HasPrefix(d, "same JSON value") {
-		if strings.Contains(d, "\\ufffd") || strings.Contains(d, "\ufffd") {
+		if strings.Contains(d, "not valid UTF-8") {
 			return "bytes-only:invalid-utf8"
 		}
 		return "bytes-only"
